@@ -62,10 +62,11 @@ type Exec struct {
 
 	Readers map[int]*Reader
 
-	Viol   []*Violation
-	Probes map[string]int
-	step   int
-	opi    int
+	Viol    []*Violation
+	Probes  map[string]int
+	step    int
+	opi     int
+	capture **model.Bucket
 
 	// knobs
 	FileChecks   bool // decode the file and run Tx.Check after every commit / reopen
@@ -699,6 +700,14 @@ func (e *Exec) CloseReader(id int) {
 	delete(e.Readers, id)
 }
 
+// RunTxCapture is RunTx that also hands back the state the transaction would
+// produce if it committed (used when the commit is made to fail).
+func (e *Exec) RunTxCapture(t *Txn, w **model.Bucket) {
+	e.capture = w
+	defer func() { e.capture = nil }()
+	e.RunTx(t)
+}
+
 // RunTx executes one transaction.
 func (e *Exec) RunTx(t *Txn) {
 	if e.DB == nil {
@@ -715,6 +724,9 @@ func (e *Exec) RunTx(t *Txn) {
 	w := e.Cur
 	if writable {
 		w = e.Cur.Clone()
+	}
+	if e.capture != nil {
+		*e.capture = w
 	}
 	body := func(tx *bolt.Tx) {
 		if writable {
@@ -956,6 +968,16 @@ func (e *Exec) noteShape(res *dec.Result) {
 		e.Probes["freelist-nonempty"]++
 	}
 	e.LastShape = s
+}
+
+// RunStepNoCheck runs a tx step without the post-transaction checks.
+func (e *Exec) RunStepNoCheck(i int, s *Step) {
+	e.step = i
+	e.opi = -1
+	Pos.Store(int64(i) << 32)
+	if s.Kind == "tx" {
+		e.RunTx(s.Tx)
+	}
 }
 
 // RunStep executes one top-level step of a single-task program.
